@@ -105,8 +105,8 @@ def run(prog: Program, res: Result, tier: str) -> None:
         if ok:
             res.ok("T-TRANSVERSAL", inst, fi.loc())
         else:
-            res.bad("T-TRANSVERSAL", "tetrahedral atoms", fi.loc(),
-                    f"{inst}: not found", instance=inst)
+            res.unrecognised("T-TRANSVERSAL", inst, fi.loc(),
+                             "construction of the tetrahedral atom tuple")
     # E / Z
     swaps = [n for n in ast.walk(fi.node) if isinstance(n, ast.If)
              and norm(n.test) == "invert"]
@@ -210,15 +210,26 @@ def check_idmap(prog: Program, res: Result, fi) -> None:
     res.need("R-IDMAP", n, 10, "descriptor constructions in the importer")
     # atoms and bonds of the graph
     for fn in (fi, prog.fn("rdmol2graph:mol_graph_from_rdmol")):
-        t = ast.unparse(fn.node)
-        for what, pat in (("atoms", "graph.add_atom(id_atom_map[atom.GetIdx()], atom.GetSymbol())"),
-                          ("bonds", "graph.add_bond(id_atom_map[bond.GetBeginAtomIdx()], id_atom_map[bond.GetEndAtomIdx()])")):
+        for what, meth, nargs in (("atoms", "add_atom", 1),
+                                  ("bonds", "add_bond", 2)):
             inst = f"{fn.short}: {what} added through id_atom_map"
-            if pat in t:
-                res.ok("R-IDMAP", inst, fn.loc())
+            calls = [c for c in ast.walk(fn.node) if isinstance(c, ast.Call)
+                     and norm(c.func) == f"graph.{meth}"]
+            if not calls:
+                res.unrecognised("R-IDMAP", inst, fn.loc(),
+                                 f"no graph.{meth}(...) call")
+                continue
+            rawargs = [norm(a) for c in calls for a in c.args[:nargs]
+                       if not (isinstance(a, ast.Subscript)
+                               and norm(a.value) == "id_atom_map")]
+            if rawargs:
+                res.bad("R-IDMAP", f"{fn.short}: {what} {rawargs}",
+                        fn.loc(calls[0]), f"{inst}: graph.{meth} receives "
+                        f"{rawargs}, not id_atom_map[...]: with "
+                        "use_atom_map_number the graph is keyed by RDKit "
+                        "indices", instance=inst)
             else:
-                res.bad("R-IDMAP", f"{fn.short}: {what}", fn.loc(),
-                        f"{inst}: `{pat}` not found", instance=inst)
+                res.ok("R-IDMAP", inst, fn.loc(calls[0]))
     # sibling agreement of the two id_atom_map constructions
     def maps(fn):
         out = []
